@@ -70,7 +70,7 @@ ASSUMPTIONS = [
     'the returned (still open) output handle is closed by the caller before '
     'reading',
 ]
-BUDGET = {'quick': dict(examples=3200, max_s=240),
+BUDGET = {'quick': dict(examples=2800, max_s=240),
           'thorough': dict(examples=100000, max_s=3000)}
 
 NAMES = ['O3', 'NO2_ppbv', 'CO', 'HCHO_pptv', 'Pressure', 'Temp_K', 'ALT',
